@@ -155,7 +155,7 @@ class StreamBed(object):
     """GET /logtail/g:p (or /mainlogtail) on the real server without
     authentication; the log file is scripted through `Files`."""
 
-    def __init__(self, workdir, testbed_cls):
+    def __init__(self, workdir, testbed_cls, username=None, password=None):
         from supervisor import http as shttp
         self.shttp = shttp
         self.clock = FakeClock()
@@ -166,7 +166,7 @@ class StreamBed(object):
         self.mhs = mhs
         self.saved_time_mhs = mhs.time
         mhs.time = self.clock
-        self.tb = testbed_cls(workdir, None, None, tag='t', via_parser=False)
+        self.tb = testbed_cls(workdir, username, password, tag='t', via_parser=False)
         self.workdir = workdir
         self.which = [i for i, a in enumerate(self.tb.addrs) if a[0] == socket.AF_UNIX][0]
 
